@@ -35,79 +35,101 @@ Definition MOD_ROLE : str := [77;79;68]%N.
 Inductive cres (A : Type) := COk (a : A) | CIndexError | CInvalid.
 Arguments COk {A}. Arguments CIndexError {A}. Arguments CInvalid {A}.
 
+Section DmrsConv.
+Variable m : mrs.
+Variable ids : list str.
+Variable reps : list (str * list str).
+
+Definition eps : list (str * ep) := combine ids (m_rels m).
+
+Definition nid_of (i : str) : Z :=
+  match index_of_id ids i 0%nat with
+  | Some k => (FIRST_NODE_ID + Z.of_nat k)%Z | None => (-1)%Z end.
+
+(* iv_to_nid: {ep.iv: nid} over non-quantifiers, later entries win *)
+Definition iv_to_nid (v : str) : option Z :=
+  fold_left (fun acc p => if negb (is_quant (snd p)) &&
+                             match e_iv (snd p) with Some x => str_eqb x v | None => false end
+                          then Some (nid_of (fst p)) else acc) eps None.
+
+Definition label_of_id (i : str) : option str :=
+  match find (fun p => str_eqb (fst p) i) eps with
+  | Some p => Some (e_label (snd p)) | None => None end.
+
+Definition top_of : cres (option Z * nat) :=
+  match m_top m with
+  | None => COk (None, 0%nat)
+  | Some tv =>
+      let lbl := match hc_get (m_hcons m) tv with Some c => snd c | None => tv end in
+      match first_rep reps lbl with
+      | None => COk (None, 1%nat)                     (* unusable TOP: warning *)
+      | Some None => CIndexError
+      | Some (Some i) => COk (Some (nid_of i), 0%nat)
+      end
+  end.
+
+Definition index_of : option Z :=
+  match m_index m with
+  | Some v => match v with [] => None | _ => iv_to_nid v end
+  | None => None end.
+
+Definition node_of (p : str * ep) : dnode :=
+  let '(i, e) := p in
+  let '(ty, props) :=
+    if is_quant e then (None, [])
+    else match e_iv e with
+         | Some v => (var_type v, match dict_get v (m_vars m) with Some pr => pr | None => [] end)
+         | None => (Some [117%N], [])
+         end in
+  {| dn_id := nid_of i; dn_pred := e_pred e; dn_type := ty; dn_props := props; dn_carg := e_carg e |}.
+
+(* one optional link (and possibly a warning) per argument *)
+Definition arg_link (i : str) (e : ep) (rv : str * str) : list (Z * Z * str * str) * nat :=
+  let '(role, tgt) := rv in
+  match iv_to_nid tgt with
+  | Some endn =>
+      let post := match label_of_id tgt with
+                  | Some l => if str_eqb (e_label e) l then POST_EQ else POST_NEQ
+                  | None => POST_NEQ end in
+      ([(nid_of i, endn, role, post)], 0%nat)
+  | None =>
+      match hc_get (m_hcons m) tgt with
+      | Some c =>
+          let w := match dict_get (snd c) reps with Some _ => 0%nat | None => 1%nat end in
+          match dict_get (snd c) reps with
+          | Some (r :: _) => ([(nid_of i, nid_of r, role, POST_H)], w)
+          | _ => ([], w)
+          end
+      | None =>
+          match dict_get tgt reps with
+          | Some (r :: _) => ([(nid_of i, nid_of r, role, POST_HEQ)], 0%nat)
+          | _ => ([], 0%nat)
+          end
+      end
+  end.
+
+Definition per_arg : list (list (Z * Z * str * str) * nat) :=
+  flat_map (fun p => map (arg_link (fst p) (snd p)) (ep_arguments None (snd p))) eps.
+
+Definition mod_links : list (Z * Z * str * str) :=
+  flat_map (fun lr => match snd lr with
+                      | f :: rest => map (fun s => (nid_of s, nid_of f, MOD_ROLE, POST_EQ)) rest
+                      | [] => [] end) reps.
+
+Definition conv_result : cres dmrs :=
+  match top_of with
+  | COk (top, w1) =>
+      COk {| d_top := top; d_index := index_of; d_nodes := map node_of eps;
+             d_links := flat_map fst per_arg ++ mod_links;
+             d_warnings := (w1 + fold_left (fun a x => (a + snd x)%nat) per_arg 0%nat)%nat |}
+  | CIndexError => CIndexError
+  | CInvalid => CInvalid
+  end.
+End DmrsConv.
+
 Definition dmrs_from_mrs (m : mrs) : cres dmrs :=
   match ep_ids (m_rels m), representatives m with
-  | Some ids, Some reps =>
-      let eps := combine ids (m_rels m) in
-      let nid_of := fun i => match index_of_id ids i 0%nat with
-                             | Some k => (FIRST_NODE_ID + Z.of_nat k)%Z | None => (-1)%Z end in
-      (* iv_to_nid: {ep.iv: nid} over non-quantifiers, later entries win *)
-      let iv_to_nid := fun v =>
-        fold_left (fun acc p => if negb (is_quant (snd p)) &&
-                                   match e_iv (snd p) with Some x => str_eqb x v | None => false end
-                                then Some (nid_of (fst p)) else acc) eps None in
-      let label_of_id := fun i => match find (fun p => str_eqb (fst p) i) eps with
-                                  | Some p => Some (e_label (snd p)) | None => None end in
-      (* top *)
-      let top_r :=
-        match m_top m with
-        | None => COk (None, 0%nat)
-        | Some tv =>
-            let lbl := match hc_get (m_hcons m) tv with Some c => snd c | None => tv end in
-            match first_rep reps lbl with
-            | None => COk (None, 1%nat)                     (* unusable TOP: warning *)
-            | Some None => CIndexError
-            | Some (Some i) => COk (Some (nid_of i), 0%nat)
-            end
-        end in
-      let index := match m_index m with
-                   | Some v => match v with [] => None | _ => iv_to_nid v end
-                   | None => None end in
-      let nodes := map (fun p =>
-        let '(i, e) := p in
-        let '(ty, props) :=
-          if is_quant e then (None, [])
-          else match e_iv e with
-               | Some v => (var_type v, match dict_get v (m_vars m) with Some pr => pr | None => [] end)
-               | None => (Some [117%N], [])
-               end in
-        {| dn_id := nid_of i; dn_pred := e_pred e; dn_type := ty; dn_props := props;
-           dn_carg := e_carg e |}) eps in
-      (* argument links: one optional link (and possibly a warning) per argument *)
-      let arg_link := fun (i : str) (e : ep) (rv : str * str) =>
-        let '(role, tgt) := rv in
-        match iv_to_nid tgt with
-        | Some endn =>
-            let post := match label_of_id tgt with
-                        | Some l => if str_eqb (e_label e) l then POST_EQ else POST_NEQ
-                        | None => POST_NEQ end in
-            ([(nid_of i, endn, role, post)], 0%nat)
-        | None =>
-            let '(lbl, post, w) :=
-              match hc_get (m_hcons m) tgt with
-              | Some c => (snd c, POST_H, match dict_get (snd c) reps with Some _ => 0%nat | None => 1%nat end)
-              | None => (tgt, POST_HEQ, 0%nat)
-              end in
-            match dict_get lbl reps with
-            | Some (r :: _) => ([(nid_of i, nid_of r, role, post)], w)
-            | _ => ([], w)
-            end
-        end in
-      let per_arg := flat_map (fun p => map (arg_link (fst p) (snd p)) (ep_arguments None (snd p))) eps in
-      let arg_links := (COk (flat_map fst per_arg) : cres (list (Z * Z * str * str)),
-                        fold_left (fun a x => (a + snd x)%nat) per_arg 0%nat) in
-      let mod_links :=
-        flat_map (fun lr => match snd lr with
-                            | f :: rest => map (fun s => (nid_of s, nid_of f, MOD_ROLE, POST_EQ)) rest
-                            | [] => [] end) reps in
-      match top_r, arg_links with
-      | COk (top, w1), (COk ls, w2) =>
-          COk {| d_top := top; d_index := index; d_nodes := nodes;
-                 d_links := ls ++ mod_links; d_warnings := (w1 + w2)%nat |}
-      | CIndexError, _ => CIndexError
-      | _, (CIndexError, _) => CIndexError
-      | _, _ => CInvalid
-      end
+  | Some ids, Some reps => conv_result m ids reps
   | _, _ => CInvalid
   end.
 
@@ -122,95 +144,135 @@ Definition ARG1 : str := [65;82;71;49]%N.
 (* dict assignment on (role -> target) edge maps *)
 Definition edge_set (role tgt : str) (d : list (str * str)) : list (str * str) := dict_set role tgt d.
 
+(* make_ids_unique: the new id of every predication (LKB style) *)
+Definition new_ids_of (eps : list (str * ep)) : list (str * str) :=
+  fst (fold_left (fun acc p =>
+         let '(out, k) := acc in
+         let '(i, e) := p in
+         match e_iv e with
+         | Some v => if is_quant e then (out ++ [(i, 95%N :: Z_to_dec k)], (k + 1)%Z)
+                     else (out ++ [(i, v)], k)
+         | None => (out ++ [(i, 95%N :: Z_to_dec k)], (k + 1)%Z)
+         end) eps ([], 1%Z)).
+
+Definition rename_id (new_ids : list (str * str)) (i : str) : str :=
+  match dict_get i new_ids with Some j => j | None => i end.
+
+Definition rename_nodes (new_ids : list (str * str)) (nodes : list enode) : list enode :=
+  map (fun n => {| en_id := rename_id new_ids (en_id n); en_pred := en_pred n; en_type := en_type n;
+                   en_edges := map (fun rt => (fst rt, rename_id new_ids (snd rt))) (en_edges n);
+                   en_props := en_props n; en_carg := en_carg n |}) nodes.
+
+Definition base_node (m : mrs) (deps : list (str * list (str * str))) (p : str * ep) : enode :=
+  let '(i, e) := p in
+  let '(ty, props) :=
+    if is_quant e then (None, [])
+    else match e_iv e with
+         | Some v => (var_type v, match dict_get v (m_vars m) with Some pr => pr | None => [] end)
+         | None => (None, []) end in
+  {| en_id := i; en_pred := e_pred e; en_type := ty;
+     en_edges := match dict_get i deps with Some d => d | None => [] end;
+     en_props := props; en_carg := e_carg e |}.
+
+Definition add_pm_edge (addl : list (str * str)) (n : enode) : enode :=
+  match dict_get (en_id n) addl with
+  | Some first => {| en_id := en_id n; en_pred := en_pred n; en_type := en_type n;
+                     en_edges := edge_set ARG1 first (en_edges n);
+                     en_props := en_props n; en_carg := en_carg n |}
+  | None => n end.
+
+Section EdsConv.
+Variable m : mrs.
+Variable ids : list str.
+Variable reps : list (str * list str).
+Let eps := combine ids (m_rels m).
+
+(* quantification_pairs: qmap = {q.iv: q}; ivmap = {p.iv: (p, q)} for non-quantifiers p *)
+Definition qmap (v : str) : option (str * ep) :=
+  fold_left (fun acc p =>
+     if is_quant (snd p) && match e_iv (snd p) with Some x => str_eqb x v | None => false end
+     then Some p else acc) eps None.
+Definition ivmap (v : str) : option ((str * ep) * option (str * ep)) :=
+  fold_left (fun acc p =>
+     if negb (is_quant (snd p)) && match e_iv (snd p) with Some x => str_eqb x v | None => false end
+     then Some (p, qmap v) else acc) eps None.
+
+Definition eds_top : cres (option str * nat) :=
+  let hctop := match m_top m with Some t => hc_get (m_hcons m) t | None => None end in
+  let via_index :=
+    match m_index m with
+    | Some ix => match ivmap ix with
+                 | Some (p, _) => first_rep reps (e_label (snd p))
+                 | None => None end
+    | None => None end in
+    let fallback (w : nat) :=
+      match (match m_top m with Some t => first_rep reps t | None => None end) with
+      | Some None => CIndexError
+      | Some (Some i) => COk (Some i, w)
+      | None => match via_index with
+                | Some None => CIndexError
+                | Some (Some i) => COk (Some i, w)
+                | None => COk (None, S w)                (* unable to find a suitable TOP *)
+                end
+      end in
+    match hctop with
+    | Some c => match first_rep reps (snd c) with
+                | Some None => CIndexError
+                | Some (Some i) => COk (Some i, 0%nat)
+                | None => fallback 1%nat                  (* broken handle constraint *)
+                end
+    | None => fallback 0%nat
+    end.
+
+(* basic dependencies: edges[src] for every non-quantifier in ivmap, BV for its quantifier *)
+Definition eds_deps : cres (list (str * list (str * str))) * nat :=
+    fold_left (fun acc p =>
+      match acc with
+      | (COk edges, w) =>
+          let '(i, e) := p in
+          match ivmap i with
+          | None => (COk edges, w)
+          | Some (_, q) =>
+              let r := fold_left (fun acc2 rv =>
+                match acc2 with
+                | (COk d, w2) =>
+                    let '(role, tgt) := rv in
+                    match hc_get (m_hcons m) tgt with
+                    | Some c => match first_rep reps (snd c) with
+                                | Some None => (CIndexError, w2)
+                                | Some (Some t) => (COk (edge_set role t d), w2)
+                                | None => (COk d, S w2) end
+                    | None =>
+                        match first_rep reps tgt with
+                        | Some None => (CIndexError, w2)
+                        | Some (Some t) => (COk (edge_set role t d), w2)
+                        | None => match ivmap tgt with
+                                  | Some (p2, _) => (COk (edge_set role (fst p2) d), w2)
+                                  | None => (COk d, w2) end
+                        end
+                    end
+                | other => other
+                end) (ep_arguments None e) (COk [], w) in
+              match r with
+              | (COk d, w2) =>
+                  let edges1 := dict_set i d edges in
+                  (COk (match q with Some qp => dict_set (fst qp) [(BV, i)] edges1 | None => edges1 end), w2)
+              | (CIndexError, w2) => (CIndexError, w2)
+              | (CInvalid, w2) => (CInvalid, w2)
+              end
+          end
+      | other => other
+      end) eps (COk [], 0%nat).
+End EdsConv.
+
 Definition eds_from_mrs (m : mrs) (predicate_modifiers unique_ids : bool) : cres eds :=
   match ep_ids (m_rels m), representatives m with
   | Some ids, Some reps =>
       let eps := combine ids (m_rels m) in
-      (* quantification_pairs: qmap = {q.iv: q}; ivmap = {p.iv: (p, q)} for non-quantifiers p *)
-      let qmap := fun v => fold_left (fun acc p =>
-                     if is_quant (snd p) && match e_iv (snd p) with Some x => str_eqb x v | None => false end
-                     then Some p else acc) eps None in
-      let ivmap := fun v => fold_left (fun acc p =>
-                     if negb (is_quant (snd p)) && match e_iv (snd p) with Some x => str_eqb x v | None => false end
-                     then Some (p, qmap v) else acc) eps None in
-      (* top *)
-      let hctop := match m_top m with Some t => hc_get (m_hcons m) t | None => None end in
-      let via_index :=
-        match m_index m with
-        | Some ix => match ivmap ix with
-                     | Some (p, _) => first_rep reps (e_label (snd p))
-                     | None => None end
-        | None => None end in
-      let top_r : cres (option str * nat) :=
-        let fallback (w : nat) :=
-          match (match m_top m with Some t => first_rep reps t | None => None end) with
-          | Some None => CIndexError
-          | Some (Some i) => COk (Some i, w)
-          | None => match via_index with
-                    | Some None => CIndexError
-                    | Some (Some i) => COk (Some i, w)
-                    | None => COk (None, S w)                (* unable to find a suitable TOP *)
-                    end
-          end in
-        match hctop with
-        | Some c => match first_rep reps (snd c) with
-                    | Some None => CIndexError
-                    | Some (Some i) => COk (Some i, 0%nat)
-                    | None => fallback 1%nat                  (* broken handle constraint *)
-                    end
-        | None => fallback 0%nat
-        end in
-      (* basic dependencies: edges[src] for every non-quantifier in ivmap, BV for its quantifier *)
-      let deps_r :=
-        fold_left (fun acc p =>
-          match acc with
-          | (COk edges, w) =>
-              let '(i, e) := p in
-              match ivmap i with
-              | None => (COk edges, w)
-              | Some (_, q) =>
-                  let r := fold_left (fun acc2 rv =>
-                    match acc2 with
-                    | (COk d, w2) =>
-                        let '(role, tgt) := rv in
-                        match hc_get (m_hcons m) tgt with
-                        | Some c => match first_rep reps (snd c) with
-                                    | Some None => (CIndexError, w2)
-                                    | Some (Some t) => (COk (edge_set role t d), w2)
-                                    | None => (COk d, S w2) end
-                        | None =>
-                            match first_rep reps tgt with
-                            | Some None => (CIndexError, w2)
-                            | Some (Some t) => (COk (edge_set role t d), w2)
-                            | None => match ivmap tgt with
-                                      | Some (p2, _) => (COk (edge_set role (fst p2) d), w2)
-                                      | None => (COk d, w2) end
-                            end
-                        end
-                    | other => other
-                    end) (ep_arguments None e) (COk [], w) in
-                  match r with
-                  | (COk d, w2) =>
-                      let edges1 := dict_set i d edges in
-                      (COk (match q with Some qp => dict_set (fst qp) [(BV, i)] edges1 | None => edges1 end), w2)
-                  | (CIndexError, w2) => (CIndexError, w2)
-                  | (CInvalid, w2) => (CInvalid, w2)
-                  end
-              end
-          | other => other
-          end) eps (COk [], 0%nat) in
-      match top_r, deps_r with
+      let ivmap := ivmap m ids in
+      match eds_top m ids reps, eds_deps m ids reps with
       | COk (top, w1), (COk deps, w2) =>
-          let nodes0 := map (fun p =>
-            let '(i, e) := p in
-            let '(ty, props) :=
-              if is_quant e then (None, [])
-              else match e_iv e with
-                   | Some v => (var_type v, match dict_get v (m_vars m) with Some pr => pr | None => [] end)
-                   | None => (None, []) end in
-            {| en_id := i; en_pred := e_pred e; en_type := ty;
-               en_edges := match dict_get i deps with Some d => d | None => [] end;
-               en_props := props; en_carg := e_carg e |}) eps in
+          let nodes0 := map (base_node m deps) eps in
           (* find_predicate_modifiers *)
           let gedges := flat_map (fun n => flat_map (fun rt => [(en_id n, snd rt); (snd rt, en_id n)]) (en_edges n)) nodes0 in
           let comp := fun i => reach str str_eqb gedges i in
@@ -234,29 +296,13 @@ Definition eds_from_mrs (m : mrs) (predicate_modifiers unique_ids : bool) : cres
                               else (out, joined))
                             rest ([], [first]))
                    | [] => [] end) reps in
-          let nodes1 := map (fun n =>
-            match dict_get (en_id n) addl with
-            | Some first => {| en_id := en_id n; en_pred := en_pred n; en_type := en_type n;
-                               en_edges := edge_set ARG1 first (en_edges n);
-                               en_props := en_props n; en_carg := en_carg n |}
-            | None => n end) nodes0 in
+          let nodes1 := map (add_pm_edge addl) nodes0 in
           if unique_ids then
             (* make_ids_unique, for structures in which no two predications get the same new id *)
-            let new_ids :=
-              fst (fold_left (fun acc p =>
-                     let '(out, k) := acc in
-                     let '(i, e) := p in
-                     match e_iv e with
-                     | Some v => if is_quant e then (out ++ [(i, 95%N :: Z_to_dec k)], (k + 1)%Z)
-                                 else (out ++ [(i, v)], k)
-                     | None => (out ++ [(i, 95%N :: Z_to_dec k)], (k + 1)%Z)
-                     end) eps ([], 1%Z)) in
+            let new_ids := new_ids_of eps in
             if nodupb (map snd new_ids) then
-              let rn := fun i => match dict_get i new_ids with Some j => j | None => i end in
-              COk {| e_top := option_map rn top;
-                     e_nodes := map (fun n => {| en_id := rn (en_id n); en_pred := en_pred n; en_type := en_type n;
-                                                 en_edges := map (fun rt => (fst rt, rn (snd rt))) (en_edges n);
-                                                 en_props := en_props n; en_carg := en_carg n |}) nodes1;
+              COk {| e_top := option_map (rename_id new_ids) top;
+                     e_nodes := rename_nodes new_ids nodes1;
                      e_warnings := (w1 + w2)%nat |}
             else CInvalid
           else COk {| e_top := top; e_nodes := nodes1; e_warnings := (w1 + w2)%nat |}
